@@ -679,6 +679,8 @@ h1_chunked (request_st * const r, chunkqueue * const cq, chunkqueue * const dst_
                             }
                         }
                         hsz = p + 4 - (c->mem->ptr+c->offset);
+                        if (hsz > (off_t)r->conf.max_request_field_size)
+                            r->keep_alive = 0; /*(same if received at once)*/
                         /* trailers currently ignored, but could be processed
                          * here if 0 == (r->conf.stream_request_body &
                          *               & (FDEVENT_STREAM_REQUEST
